@@ -207,8 +207,10 @@ def run(chk, tier):
     for derive in ("Display", "LowerHex", "Debug"):
         for named in (False, True):
             for n in (1, 2, 3):
-                form_sets = list(itertools.product(forms, repeat=n)) if (n <= 2 or thorough) else [
-                    fs for fs in itertools.product(forms, repeat=n) if fs[0] in ("T", "vec", "plain", "assoc") and fs[2] in ("ref", "plain", "wrapper", "phantom")]
+                six = ("T", "ref", "vec", "plain", "qassoc_arg", "fnptr")
+                form_sets = list(itertools.product(forms, repeat=n)) if n <= 2 else (
+                    list(itertools.product(six, repeat=n)) if thorough else
+                    [fs for fs in itertools.product(forms, repeat=n) if fs[0] in ("T", "vec", "plain", "assoc") and fs[2] in ("ref", "plain", "wrapper", "phantom")])
                 style_sets = list(itertools.product(STYLES, repeat=n))
                 for fs in form_sets:
                     for ss in style_sets:
@@ -270,23 +272,26 @@ def run(chk, tier):
                     item = '#[%s("%s", %s)] struct S%s %s%s' % (ATTR[derive], lit % names, args % names, gdecl, body, "" if named else ";")
                     reqs.append({"derive": derive, "item": item})
                     metas.append((item, model, "%s/star-and-dollar-parameters" % derive))
-    res = svc(reqs)
-    for (item, model, kind), r in zip(metas, res):
-        chk.count(states=1, transitions=1)
-        if r["k"] != "ok":
-            chk.outcome("A-%s/%s" % (r["k"], kind))
-            chk.violation("in-process: supported generic input %s (%s)" % (r["k"], kind), item, r.get("msg", "")[:300] + " " + r.get("loc", ""))
-            continue
-        got = where_preds(r["out"])
-        if got == model:
-            chk.outcome("A-agree/%s/%d-bounds" % (kind, len(model)))
-            continue
-        missing, extra = model - got, got - model
-        what = "missing" if missing and not extra else ("excess" if extra and not missing else "different")
-        feat = "field-attr-on-non-generic-field" if kind == "Debug/fields" and missing and re.search(r"#\[debug\(\"[^\"]*\"\)\] (?:f\d: )?u8", item) else ""
-        chk.outcome("A-%s/%s" % (what, kind))
-        chk.violation("in-process: %s bounds (%s) %s" % (what, kind, feat), item, "model: %s\nexpansion: %s" % (sorted(model), sorted(got)))
-    chk.part("A_inprocess", expansions=len(reqs), forms=forms, styles=STYLES, levels=["struct", "variant", "shared default", "shared wrapping", "Debug field attributes / skip / implicit"],
+    total_reqs = len(reqs)
+    B = 100000
+    for lo in range(0, total_reqs, B):
+      res = svc(reqs[lo:lo + B])
+      for (item, model, kind), r in zip(metas[lo:lo + B], res):
+          chk.count(states=1, transitions=1)
+          if r["k"] != "ok":
+              chk.outcome("A-%s/%s" % (r["k"], kind))
+              chk.violation("in-process: supported generic input %s (%s)" % (r["k"], kind), item, r.get("msg", "")[:300] + " " + r.get("loc", ""))
+              continue
+          got = where_preds(r["out"])
+          if got == model:
+              chk.outcome("A-agree/%s/%d-bounds" % (kind, len(model)))
+              continue
+          missing, extra = model - got, got - model
+          what = "missing" if missing and not extra else ("excess" if extra and not missing else "different")
+          feat = "field-attr-on-non-generic-field" if kind == "Debug/fields" and missing and re.search(r"#\[debug\(\"[^\"]*\"\)\] (?:f\d: )?u8", item) else ""
+          chk.outcome("A-%s/%s" % (what, kind))
+          chk.violation("in-process: %s bounds (%s) %s" % (what, kind, feat), item, "model: %s\nexpansion: %s" % (sorted(model), sorted(got)))
+    chk.part("A_inprocess", expansions=total_reqs, forms=forms, styles=STYLES, levels=["struct", "variant", "shared default", "shared wrapping", "Debug field attributes / skip / implicit"],
              oracle="where-clause of the real expansion == model set {type of each referenced generic field : trait of the referencing placeholder} U bound(..) predicates")
     for (item, model, kind) in metas[:: max(1, len(metas) // 6)][:6]:
         chk.sample({"item": item, "expected_where_predicates": sorted(model)})
